@@ -13,7 +13,9 @@ import (
 	"fmt"
 	"net"
 	"os"
+	"strings"
 	"sync"
+	"sync/atomic"
 	"syscall"
 	"testing"
 	"time"
@@ -35,7 +37,8 @@ type vSrvScenario struct {
 	Shutdown  bool              `json:"shutdown"`
 	Deadline  int               `json:"deadline"` // ms
 	Pollers   int               `json:"pollers"`
-	Pusher    bool              `json:"pusher"` // a server-side goroutine (outside any handler) pushes a payload far above the socket buffer to the first connection
+	HoldSetup bool              `json:"holdsetup"` // the plan starts when every poller and the shutdown actor stand in front of their first real step; projections are logged
+	Pusher    bool              `json:"pusher"`    // a server-side goroutine (outside any handler) pushes a payload far above the socket buffer to the first connection
 }
 
 func vRunSrvScenario(sc *vSrvScenario) ([]vOutEvent, map[string]interface{}) {
@@ -218,6 +221,38 @@ func vRunSrvScenario(sc *vSrvScenario) ([]vOutEvent, map[string]interface{}) {
 			ev("ShutdownRet", "", int(time.Since(t0)/time.Millisecond), 0, e)
 		})
 	}
+	if sc.HoldSetup {
+		s.holdUntil = func() bool {
+			s.mu.Lock()
+			defer s.mu.Unlock()
+			for _, a := range s.list {
+				if a.state == vStParked && (a.gate.pt == vpxStart || a.gate.pt == vpxUser) && !strings.HasPrefix(a.name, "task") && !strings.HasPrefix(a.name, "hup") {
+					return false
+				}
+			}
+			return true
+		}
+		s.projFn = func() []int32 {
+			out := make([]int32, 10)
+			c := first
+			if c != nil {
+				out[0], out[1], out[2] = vLoad32(&c.keychain[closing]), vLoad32(&c.keychain[connecting]), vLoad32(&c.keychain[processing])
+				out[3] = atomic.LoadInt32(&c.state)
+				if c.inputBuffer != nil {
+					out[4] = int32(atomic.LoadInt64(&c.inputBuffer.length))
+				}
+				if c.operator != nil {
+					out[5], out[6] = atomic.LoadInt32(&c.operator.state), atomic.LoadInt32(&c.operator.detached)
+				}
+				if _, ok := svr.connections.Load(c.fd); ok {
+					out[7] = 1
+				}
+				out[9] = atomic.LoadInt32(&c.closeCallbackRun)
+			}
+			out[8] = atomic.LoadInt32(&svr.accepting)
+			return out
+		}
+	}
 	s.Run()
 	_ = clientClosed
 	_ = quitErr
@@ -237,7 +272,7 @@ func vRunSrvScenario(sc *vSrvScenario) ([]vOutEvent, map[string]interface{}) {
 	}
 	st := s.stuck
 	ev("Quiescent", "", lnOpen, 0, st)
-	info := map[string]interface{}{"id": sc.ID, "taken": s.taken, "gates": s.gateLog, "stalled": s.stalled, "steps": len(s.taken), "stuck": st, "deadlock": s.deadlock, "drift": s.drift}
+	info := map[string]interface{}{"id": sc.ID, "hold": s.holdSteps, "proj": s.projLog, "taken": s.taken, "gates": s.gateLog, "stalled": s.stalled, "steps": len(s.taken), "stuck": st, "deadlock": s.deadlock, "drift": s.drift}
 	// cleanup outside the scheduler
 	for _, c := range conns {
 		if c != nil {
